@@ -38,7 +38,12 @@ ASSUMPTIONS = [
     'shutil.disk_usage is patched to "plenty" so the 1 GB free-space guard cannot interfere',
 ]
 N = {'quick': 250, 'thorough': 900}
-PATHS = ['idx', 'neg', 'np', 'key', 'view', 'iter', 'prefetch2']
+PATHS = ['idx', 'neg', 'np', 'key', 'view', 'iter', 'prefetch2', 'items', 'intsub']
+
+
+class Position(int):
+    """An int subclass (what an IntEnum member or a bool is): the same position as the plain int."""
+
 
 
 def plan(tier):
@@ -234,6 +239,19 @@ def lifecycle(case):
                         view = ds[::-1]
                         observe(n - 1 - p, view[p], path)
                         touched = [n - 1 - p]
+                    elif path == 'intsub':
+                        observe(p, ds[Position(p)] if p > 1 else ds[bool(p)], path)
+                        touched = [p]
+                    elif path == 'items':
+                        if cont == 'dict':
+                            for i, (k, v) in enumerate(ds.items()):
+                                if k != keys[i]:
+                                    raise Violation('items-key', f'{desc}\nitems() pairs position {i} with {k!r}')
+                                observe(i, v, path)
+                        else:
+                            for i, v in enumerate(ds):
+                                observe(i, v, path)
+                        touched = list(range(n))
                     elif path == 'iter':
                         for i, v in enumerate(ds):
                             observe(i, v, path)
